@@ -3,12 +3,12 @@
 import json, os, sys, subprocess
 ROOT = os.path.dirname(os.path.dirname(os.path.abspath(__file__)))
 sys.path.insert(0, os.path.join(ROOT, "bin"))
-from props import PROPS, NOT_APPLICABLE, LEVEL_TEXT  # noqa
+from props import PROPS, NOT_APPLICABLE, LEVEL_TEXT, CLAIMED  # noqa
 fixes = subprocess.run(["git", "-C", "/repo", "log", "--format=%H %s", "--grep=^fix:"], stdout=subprocess.PIPE, text=True).stdout.strip().split("\n")
 fixes = [l.split(" ")[0] for l in fixes if l]
 fixes.reverse()
 checks = []
-for pid in sorted(PROPS):
+for pid in sorted(CLAIMED):
     p = PROPS[pid]
     checks.append(dict(
         property_id=pid,
@@ -28,11 +28,11 @@ man = dict(
                baseline_off_cmd="cd /repo && go test -vet=off -count=1 -timeout 25m ./...",
                source_commits=fixes, add_only=True),
     engines=[dict(name="lean4-proof+correspondence", path="/verif/lean, /verif/harness, /verif/bin/check",
-                  serves_properties=sorted(PROPS),
+                  serves_properties=sorted(CLAIMED),
                   kind_free_text="machine-checked Lean 4 theorems over a hand-written executable model of casbin, tied to /repo on every run by a differential correspondence check (Go harness in-process vs compiled Lean driver) and by facts regenerated from the source with go/ast")],
     checks=checks,
     notes="Every check rebuilds the Go harness against /repo's working tree (module replace), regenerates the extracted facts, rebuilds the Lean development and audits axioms. source_commits lists the unguarded `fix:` repairs of genuine defects; findings/known.jsonl lists fixed and recorded findings.",
-    not_applicable=[dict(property_id=k, reason=v) for k, v in sorted(NOT_APPLICABLE.items()) if k not in PROPS],
+    not_applicable=[dict(property_id=k, reason=v) for k, v in sorted(NOT_APPLICABLE.items()) if k not in CLAIMED],
 )
 json.dump(man, open(os.path.join(ROOT, "MANIFEST.json"), "w"), indent=1)
 print("wrote MANIFEST.json with", len(checks), "checks;", len(man["not_applicable"]), "not yet claimed")
